@@ -13,7 +13,10 @@ REGISTRATION = {
             "overflow accounting, summaries; GpuInfoList.ByLibrary grouping; llmServer.EstimatedVRAMByGPU) and of "
             "the scheduler's Scheduler.updateFreeSpace, with uint64 wrap-around made explicit: per-GPU allocation + "
             "overhead <= free, layer-count bounds, split sums to the layer count, total >= VRAM part, CPU => 0 "
-            "layers, fit => all requested layers placed, ByLibrary partitions the list into non-empty groups, the "
+            "layers, fit => all REQUESTED layers placed (every layer of the model for num_gpu < 0 or >= blocks+1; "
+            "with a user limit 0 < num_gpu < blocks+1 the code declares a complete fit with num_gpu layers placed: "
+            "the clause as stated is false there, finding N1, Lean witness N1_fit_with_partial_offload, and is proved "
+            "under the guard that excludes that class), ByLibrary partitions the list into non-empty groups, the "
             "scheduler's adjusted free figure never exceeds the reported one, and the composition (estimate on "
             "adjusted GPUs => allocation + overhead <= REPORTED free; planned + predicted <= total). The model is "
             "tied to the code on every run: synthetic GGUFs through the real WriteGGUF/Decode/GraphSize/GroupLayers, "
@@ -21,7 +24,11 @@ REGISTRATION = {
             "with the oracle, boundaries of the estimator's comparisons found by bisection on the real code; the "
             "real Scheduler.updateFreeSpace on generated GPU lists / loaded runners compared exactly; the real "
             "pickBestFullFitByLibrary / pickBestPartialFitByLibrary on generated inventories compared exactly "
-            "(returned ids in order + numParallel); every clause "
+            "(returned ids in order + numParallel); the GPU branch of the real Scheduler.processPending (under "
+            "testing/synctest, loadFn recorded) on histories of requests compared exactly with the model of its glue "
+            "(filterGPUsWithoutLoadingModels, updateFreeSpace, full/partial pick, numParallel forcing: load on which "
+            "GPUs with which adjusted free figures | evict | delay), with theorems that discharge the correspondence "
+            "hypothesis of the composition on that model (load_sound, load_alloc_within_reported); every clause "
             "is also evaluated on the real results (estimator alone, and estimator on the scheduler-adjusted list).",
     "design_ref": "DESIGN.md §5 C16",
     "note": COMMON_NOTE + "Modelled, not verified: the quantities the estimator derives from the model file and "
@@ -58,10 +65,51 @@ THEOREMS = [
     "OllamaVerif.C16.vramByGPU_is_planned_size",
     "OllamaVerif.C16.full_fit_places_all",
     "OllamaVerif.C16.pickPartial_is_group",
+    # the clause "fits completely only if ALL layers placed" as stated (guard: no user limit below the layer count) + finding N1
+    "OllamaVerif.C16.fit_only_if_every_layer_placed_partial",
+    "OllamaVerif.C16.full_fit_places_every_layer_partial",
+    "OllamaVerif.C16.N1_fit_with_partial_offload",
+    # the scheduler's load path (processPending glue): the i -> j hypothesis of sched_alloc_le_reported discharged
+    "OllamaVerif.C16.load_sound",
+    "OllamaVerif.C16.load_alloc_within_reported",
+    "OllamaVerif.C16.load_not_on_loading_gpu",
+    "OllamaVerif.C16.effParallel_forced",
 ]
 # The code variant the model must mirror (0 = pinned overhead comparisons, 1 = with fix C16-W1) is detected
 # by the driver on every run by probing the real estimator with the W1 input; it is the first argument of
 # every oracle command and is reported as driver_stats code_variant_<n>.  VERIF_C16_VARIANT overrides.
+# Branches of the model that the theorems talk about; every one must be exercised by the drivers on every
+# non-replay run (counters printed by the Go drivers into stats.txt), else the check fails closed with
+# `correspondence-coverage` (a generator that silently stops reaching a branch would leave the L1 tie vacuous there).
+REQUIRED_BRANCHES = {
+    "estimate": ["layers_all", "layers_all_but_output", "layers_partial", "layers_none", "some_gpu_without_layers",
+                 "lib_cpu", "lib_metal", "numgpu_auto", "numgpu_0", "numgpu_lt_blocks", "numgpu_blocks+1",
+                 "numgpu_gt_blocks+1", "fit_true", "fit_false", "with_projectors", "model_with_vision",
+                 "model_block_without_tensors", "model_arch_verifarch", "model_without_output", "groups_2",
+                 "gpus_duplicate_id", "overhead_nonzero", "gen_admit_boundary", "gen_first_layer_boundary",
+                 "gen_bisect_boundary", "ngpus_1", "ngpus_2", "ngpus_8",
+                 "br_admit_reject", "br_admit_accept", "br_gzo_on_later_gpu", "br_output_placed", "br_output_not_placed",
+                 "br_output_not_considered", "br_graph_full", "br_graph_partial",
+                 "br_gpu_dropped_midway", "br_cap_hit"],
+    "sched": ["sched_some_lowered", "sched_some_zeroed", "sched_unchanged", "sched_compositions_with_layers",
+              "sched_runners_0", "sched_runners_2"],
+    "pick": ["pick_full_nil", "pick_full_single", "pick_full_multi", "pick_full_multi_reordered", "pick_full_p_1",
+             "pick_full_p_4", "pick_partial_groups_1", "pick_partial_groups_2"],
+    "load": ["load_decision_full", "load_decision_partial", "load_decision_evict", "load_decision_delay",
+             "load_on_lowered_free", "load_multi_gpu", "load_with_loading_runner", "load_runners_0", "load_runners_2",
+             "load_p_1", "load_p_4", "load_forced_parallel_1"],
+}
+
+
+def coverage_gate(ctx, which, st):
+    missing = [k for k in REQUIRED_BRANCHES[which] if not st.get(k)]
+    ctx.coverage.setdefault("branches_required", 0)
+    ctx.coverage["branches_required"] += len(REQUIRED_BRANCHES[which])
+    if missing:
+        ctx.violation("correspondence-coverage", "", "driver '%s' never exercised: %s" % (which, ", ".join(missing)),
+                      no_input=True)
+
+
 OVERLAY = {"llm/zz_verif_c16_test.go": "llm/zz_verif_c16_test.go"}
 OVERLAY_SCHED = {"server/zz_verif_c16_test.go": "server/zz_verif_c16_test.go"}
 
@@ -69,6 +117,7 @@ OVERLAY_SCHED = {"server/zz_verif_c16_test.go": "server/zz_verif_c16_test.go"}
 def run(ctx):
     ctx.lean_check(MODULES, THEOREMS)
     env = {"VERIF_N": ctx.scale(6000, 150000), "VERIF_C16_VARIANT": os.environ.get("VERIF_C16_VARIANT", ""),
+           "VERIF_C16_LITERAL": "1",      # also evaluate the fit clause as literally stated (finding N1); off inside C11's check
            "VERIF_CORPUS": os.path.join(core.ROOT, "corpus", "C16")}
     if ctx.replay:
         env["VERIF_REPLAY"] = ctx.replay_line_file()
@@ -93,6 +142,8 @@ def run(ctx):
                                         "pinned" if st.get("code_variant_0") else "undetected")
         ctx.l1(outdir)
         ctx.classify(ctx.l2(outdir))
+        if not ctx.replay:
+            coverage_gate(ctx, "estimate", st)
     # scheduler side: the real Scheduler.updateFreeSpace + composition with the real estimator
     if (not ctx.replay or sched_only) and not pick_only and not load_only:
         env2 = dict(env)
@@ -100,9 +151,11 @@ def run(ctx):
         rc, out, outdir = ctx.go_test("./server/", OVERLAY_SCHED, "^TestVerifC16Sched$", env=env2, timeout=1500)
         if rc != 0:
             ctx.violation("driver-failed", "", out[-1500:], no_input=True)
-        ctx.read_stats(outdir)
+        st = ctx.read_stats(outdir)
         ctx.l1(outdir, label="L1-sched")
         ctx.classify(ctx.l2(outdir))
+        if not ctx.replay:
+            coverage_gate(ctx, "sched", st)
     # scheduler's fit decisions: the real pickBestFullFitByLibrary / pickBestPartialFitByLibrary + the real
     # estimator on the returned list
     if (not ctx.replay or pick_only) and not load_only:
@@ -111,9 +164,11 @@ def run(ctx):
         rc, out, outdir = ctx.go_test("./server/", OVERLAY_SCHED, "^TestVerifC16Pick$", env=env3, timeout=1500)
         if rc != 0:
             ctx.violation("driver-failed", "", out[-1500:], no_input=True)
-        ctx.read_stats(outdir)
+        st = ctx.read_stats(outdir)
         ctx.l1(outdir, label="L1-pick")
         ctx.classify(ctx.l2(outdir))
+        if not ctx.replay:
+            coverage_gate(ctx, "pick", st)
     # the scheduler's load path: the real Scheduler.processPending (GPU branch) on histories of requests
     if not ctx.replay or load_only:
         env4 = dict(env)
@@ -121,9 +176,15 @@ def run(ctx):
         rc, out, outdir = ctx.go_test("./server/", OVERLAY_SCHED, "^TestVerifC16Load$", env=env4, timeout=1500)
         if rc != 0:
             ctx.violation("driver-failed", "", out[-1500:], no_input=True)
-        ctx.read_stats(outdir)
+        st = ctx.read_stats(outdir)
         ctx.l1(outdir, label="L1-load")
         ctx.classify(ctx.l2(outdir))
+        if not ctx.replay:
+            coverage_gate(ctx, "load", st)
+    ctx.assumptions.append("load path: `loadDecision` takes ONE snapshot of the loaded runners; the code reads s.loaded three "
+                           "times (loadedCount, filterGPUsWithoutLoadingModels, updateFreeSpace), each under its own lock hold; "
+                           "only unloads can happen in between (one-sided: fewer predictions, never a raised free figure beyond the "
+                           "reported one); eviction choice and CPU branch are C11's")
     ctx.assumptions.append("derived inputs (GraphSize, tensor/KV sizes, projector requirements, overhead) are "
                            "recomputed by the driver with the functions the estimator calls; flash attention off")
     if ctx.thorough:
@@ -139,9 +200,15 @@ def run(ctx):
              "total), 0-4 loaded runners (nil llama, per-GPU predictions at total-free -1/0/+1, > total, wrapping "
              "sums), composition with the real estimator on 3 synthetic models. Pick driver: synthetic models (uneven "
              "blocks, projectors) x inventories of 1-8 GPUs (mixed libraries, enumeration order != size order, ties) "
-             "x free memory in six modes scaled to the model's need x parallel auto/1/2 x spread x num_gpu classes; "
+             "x free memory in six modes scaled to the model's need x parallel auto/1/2 x spread x num_gpu classes. "
+             "Load driver: histories of 2-8 requests on one scheduler state (inventories of 1-8 GPUs in four size modes "
+             "relative to the model's need, reported free = total / fraction / accurate, runners loading or loaded, "
+             "embedding / mllama models, parallel auto/1/2, spread, overhead), one case per scheduling attempt; "
              "distinct = distinct oracle command lines",
         explanation="Lean theorems about the executable model of EstimateGPULayers/PredictServerFit; model tied "
                     "to the code by exact comparison of the whole MemoryEstimate and fit result (L1) and every "
                     "property clause evaluated on the real estimate against the real GPU list (L2); same for "
-                    "Scheduler.updateFreeSpace (L1 exact; L2 free-raised, sched-alloc-exceeds-reported)")
+                    "Scheduler.updateFreeSpace (L1 exact; L2 free-raised, sched-alloc-exceeds-reported) and for the load "
+                    "path of the real processPending on request histories (L1 exact on the decision; L2 load-exceeds-reported, "
+                    "load-exceeds-total, load-on-loading-gpu, load-partial-with-loaded, load-parallel); branch counters of "
+                    "every driver are gated (correspondence-coverage)")
